@@ -768,7 +768,9 @@ func (e *Env) typeExpr(x ast.Expr) types.Type {
 	return nil
 }
 
-// errcode extracts the S3 error code carried by an error value.
+// errcode extracts the S3 error code carried by an error value: the value
+// itself for ErrorCode, ErrInternal for InternalErrorCode, and the Code field
+// for every response struct that embeds ErrorResponse.
 func (e *Env) errcode(v *Val) *Val {
 	fx := e.fx
 	root := fx.eng.rootPkg()
@@ -783,23 +785,40 @@ func (e *Env) errcode(v *Val) *Val {
 	}
 	ec := lookup("ErrorCode")
 	er := lookup("ErrorResponse")
-	rr := lookup("resourceErrorResponse")
-	empty := fx.u.strLit("")
-	t := empty
-	if rr != nil {
-		a := &Addr{Kind: AField, Base: "(if_val " + v.T + ")", Root: rr, Path: []int{0, 1}, Ty: ec}
-		// resourceErrorResponse{ErrorResponse{XMLName, Code, ...}, Resource}
-		erS := er.Underlying().(*types.Struct)
-		codeIdx := -1
-		for i := 0; i < erS.NumFields(); i++ {
-			if erS.Field(i).Name() == "Code" {
-				codeIdx = i
-			}
+	if ec == nil || er == nil {
+		return e.errorf("errcode: ErrorCode/ErrorResponse not found")
+	}
+	erS := er.Underlying().(*types.Struct)
+	codeIdx := -1
+	for i := 0; i < erS.NumFields(); i++ {
+		if erS.Field(i).Name() == "Code" {
+			codeIdx = i
 		}
-		a.Path = []int{0, codeIdx}
-		t = ite(fmt.Sprintf("(= (if_tag %s) %d)", v.T, fx.u.tagOf(types.NewPointer(rr))), fx.loadQuiet(e.st, a).T, t)
-		b := &Addr{Kind: AField, Base: "(if_val " + v.T + ")", Root: er, Path: []int{codeIdx}, Ty: ec}
-		t = ite(fmt.Sprintf("(= (if_tag %s) %d)", v.T, fx.u.tagOf(types.NewPointer(er))), fx.loadQuiet(e.st, b).T, t)
+	}
+	t := fx.u.strLit("")
+	names := root.Scope().Names()
+	for _, n := range names {
+		tn, ok := root.Scope().Lookup(n).(*types.TypeName)
+		if !ok {
+			continue
+		}
+		st, ok := tn.Type().Underlying().(*types.Struct)
+		if !ok {
+			continue
+		}
+		var path []int
+		if types.Identical(tn.Type(), er) {
+			path = []int{codeIdx}
+		} else if st.NumFields() > 0 && st.Field(0).Embedded() && types.Identical(st.Field(0).Type(), er) {
+			path = []int{0, codeIdx}
+		} else {
+			continue
+		}
+		a := &Addr{Kind: AField, Base: "(if_val " + v.T + ")", Root: tn.Type(), Path: path, Ty: ec}
+		t = ite(fmt.Sprintf("(= (if_tag %s) %d)", v.T, fx.u.tagOf(types.NewPointer(tn.Type()))), fx.loadQuiet(e.st, a).T, t)
+	}
+	if ic := lookup("InternalErrorCode"); ic != nil {
+		t = ite(fmt.Sprintf("(= (if_tag %s) %d)", v.T, fx.u.tagOf(ic)), fx.u.strLit("InternalError"), t)
 	}
 	t = ite(fmt.Sprintf("(= (if_tag %s) %d)", v.T, fx.u.tagOf(ec)), fx.unboxAs(e.st, v.T, ec).T, t)
 	return &Val{T: t, Ty: ec}
